@@ -284,7 +284,7 @@ def selection(run, model, rule="C03.selection", rule_src="C03.selection-source")
     head = heads[0]
     NAME = ("elem", ("call", ("builtin", "dir"), (cls_p,), ()))
     start = [t for k, t in head.succ if k == "T"][0]
-    ps = tables.paths(flow, start, {head.id})
+    ps = tables.paths(flow, start, {head.id}, havoc_loops=True)
     # which local lists collect methods / properties: by their consumer loops
     consumers = {}
     for n in cfg.nodes:
@@ -517,7 +517,17 @@ def install(run, model, rule="C03.install", rule_guard="C03.new-guard"):
             elif o[0] == "call" and o[1] == ("builtin", "hasattr") and o[2][0] == cls_p:
                 why = "`%s` is always true (every class has a __new__): object.__new__ gets wrapped, which breaks subclasses that add an __init__ with arguments" % txt
             elif "__dict__" in s:
-                why = "`%s` looks at the class's own namespace only: a class that inherits a custom __new__ (e.g. a subclass of a named tuple) gets its object.__init__ wrapped instead, and can no longer be constructed with arguments" % txt
+                # a class that inherits a custom __new__ then gets its object.__init__ wrapped instead: harmless exactly
+                # when the constructor wrapper does not pass the arguments on to object.__init__ in that situation
+                # (``C14.object-init-args``): the invariants are then checked after the (argument-tolerant) __init__
+                from . import gates as _gates
+
+                res_i = marker.regions(model)["inv[init]"]
+                bodies_i = [ev for evs in res_i.wr.events().values() for ev in evs if ev["kind"] == "BODY"]
+                if bodies_i and all(_gates._object_init_exception(model, res_i, ev) for ev in bodies_i):
+                    ok = True
+                else:
+                    why = "`%s` looks at the class's own namespace only: a class that inherits a custom __new__ (e.g. a subclass of a named tuple) gets its object.__init__ wrapped instead, and can no longer be constructed with arguments" % txt
             else:
                 raise AnalysisError("%s: unrecognised guard of the __new__ branch: %s" % (fi.qual, txt))
         run.check(ok, rule_guard, fi.qual, "__new__ is wrapped iff __init__ is object.__init__ and the class has a __new__ other than object.__new__ (inherited ones included)", why, fi.loc(n), None, txt)
@@ -544,33 +554,98 @@ def install(run, model, rule="C03.install", rule_guard="C03.new-guard"):
                     f_ok = True
         run.check(t_ok and f_ok, rule, fi.qual + ":constructor", "__new__ arm wraps with the __new__ wrapper; otherwise __init__ is wrapped with is_init=True", "the constructor is not wrapped as specified (new-arm ok: %s, init-arm ok: %s)" % (t_ok, f_ok), fi.loc(n))
     # ---- methods and properties loops
+    def _binds(stmts):
+        """name -> value expression, for the plain assignments of a statement list"""
+        out = {}
+        for st_ in stmts:
+            if isinstance(st_, ast.Assign) and len(st_.targets) == 1 and isinstance(st_.targets[0], ast.Name):
+                out[st_.targets[0].id] = st_.value
+            elif isinstance(st_, ast.AnnAssign) and isinstance(st_.target, ast.Name) and st_.value is not None:
+                out[st_.target.id] = st_.value
+            elif _is_choice(st_):
+                # ``if M: W = wrap(M) else: W = None`` -- the statement form of ``W = wrap(M) if M else None``
+                out[st_.body[0].targets[0].id] = ast.IfExp(test=st_.test, body=st_.body[0].value, orelse=st_.orelse[0].value)
+        return out
+
+    def _is_choice(st_):
+        return (
+            isinstance(st_, ast.If)
+            and len(st_.body) == 1
+            and len(st_.orelse) == 1
+            and all(isinstance(x, ast.Assign) and len(x.targets) == 1 and isinstance(x.targets[0], ast.Name) for x in (st_.body[0], st_.orelse[0]))
+            and st_.body[0].targets[0].id == st_.orelse[0].targets[0].id
+        )
+
+    def _wrapped_of(expr, binds):
+        """source text of the member that ``expr`` is the wrapped form of: ``_decorate_with_invariants(func=M, ...)`` or
+        ``_decorate_with_invariants(func=M, ...) if M else None`` (also through a local bound to it), else None"""
+        if isinstance(expr, ast.Name) and expr.id in binds:
+            expr = binds[expr.id]
+        if isinstance(expr, ast.IfExp) and src_of(expr.orelse) == "None":
+            inner = _wrapped_of(expr.body, {})
+            return inner if inner is not None and src_of(expr.test) == inner else None
+        if isinstance(expr, ast.Call) and src_of(expr.func).endswith("_decorate_with_invariants"):
+            for x in [kw.value for kw in expr.keywords if kw.arg == "func"] + list(expr.args[:1]):
+                return src_of(x)
+        return None
+
+    def _changed_guard(test, binds):
+        """``W is not M`` (or a disjunction of such) where W is the wrapped form of M: true iff wrapping happened"""
+        parts = test.values if isinstance(test, ast.BoolOp) and isinstance(test.op, ast.Or) else [test]
+        for c in parts:
+            if not (isinstance(c, ast.Compare) and len(c.ops) == 1 and isinstance(c.ops[0], ast.IsNot)):
+                return False
+            l, r = c.left, c.comparators[0]
+            if not ((_wrapped_of(l, binds) is not None and _wrapped_of(l, binds) == src_of(r)) or (_wrapped_of(r, binds) is not None and _wrapped_of(r, binds) == src_of(l))):
+                return False
+        return bool(parts)
+
+    rule_only = rule.split(".")[0] + ".install-only-wrapped"
+    sites = []  # (construct, statement list holding the wrapping, node for the location)
     for n in cfg.nodes:
         if n.kind != "next":
             continue
         st = n.stmt
-        body_src = " ".join(src_of(s) for s in st.body)
         if "dir(" in src_of(st.iter):
             continue
-        uses_property = any(isinstance(s, ast.Call) and isinstance(s.func, ast.Name) and s.func.id == "property" for b in st.body for s in ast.walk(b))
+        uses_property = any(isinstance(s_, ast.Call) and isinstance(s_.func, ast.Name) and s_.func.id == "property" for b_ in st.body for s_ in ast.walk(b_))
         kind = "properties" if uses_property else "methods"
+        binds = _binds(st.body)
         bad = None
-        for b in st.body:
-            for sub in ast.walk(b):
-                if isinstance(sub, (ast.Continue, ast.Break, ast.Return, ast.If)):
+        guards = []
+        for b_ in st.body:
+            for sub in ast.walk(b_):
+                if isinstance(sub, ast.If) and _changed_guard(sub.test, binds) and not sub.orelse:
+                    guards.append(sub)
+                elif _is_choice(sub) and _wrapped_of(ast.IfExp(test=sub.test, body=sub.body[0].value, orelse=sub.orelse[0].value), {}) is not None:
+                    pass
+                elif isinstance(sub, (ast.Continue, ast.Break, ast.Return, ast.If)):
                     bad = "the loop installing the wrapped %s skips or stops on a condition (`%s`): some selected members stay unwrapped" % (kind, first_line(sub))
-        sets = [s for b in st.body for s in ast.walk(b) if isinstance(s, ast.Call) and src_of(s.func) == "setattr"]
+        sets = [s_ for b_ in st.body for s_ in ast.walk(b_) if isinstance(s_, ast.Call) and src_of(s_.func) == "setattr"]
         if not sets:
             bad = bad or "the wrapped %s are never set on the class" % kind
         if uses_property and bad is None:
-            pcalls = [s for b in st.body for s in ast.walk(b) if isinstance(s, ast.Call) and isinstance(s.func, ast.Name) and s.func.id == "property"]
+            pcalls = [s_ for b_ in st.body for s_ in ast.walk(b_) if isinstance(s_, ast.Call) and isinstance(s_.func, ast.Name) and s_.func.id == "property"]
             for pc in pcalls:
                 kws = {kw.arg: kw.value for kw in pc.keywords}
                 for acc in ("fget", "fset", "fdel"):
                     v = kws.get(acc)
-                    okv = isinstance(v, ast.IfExp) and src_of(v.test).endswith("." + acc) and isinstance(v.body, ast.Call) and src_of(v.body.func).endswith("_decorate_with_invariants") and any(src_of(x).endswith("." + acc) for x in list(v.body.args) + [kw.value for kw in v.body.keywords]) and src_of(v.orelse) == "None"
-                    if not okv:
+                    w = _wrapped_of(v, binds) if v is not None else None
+                    if not (w is not None and w.endswith("." + acc)):
                         bad = "the property accessor `%s` is not wrapped when present (%s)" % (acc, src_of(v) if v is not None else "missing")
-        run.check(bad is None, rule, "%s:%s" % (fi.qual, kind), "every selected member is wrapped and set on the class; no skip inside the loop", bad or "", fi.loc(n), None, first_line(st))
+        run.check(bad is None, rule, "%s:%s" % (fi.qual, kind), "every selected member is wrapped and set on the class; no skip inside the loop other than for members returned unchanged", bad or "", fi.loc(n), None, first_line(st))
+        # a member that came back unchanged from the wrapping (it was decorated with a base class and is inherited as it
+        # is) is not set on the class: copying it into the class's own namespace pins today's resolution of the name and
+        # shadows, in a diamond, the override of a class later in the MRO
+        guarded = bool(sets) and all(any(any(x is s_ for x in ast.walk(g_)) for g_ in guards) for s_ in sets)
+        run.check(guarded, rule_only, "%s:%s" % (fi.qual, kind), "members are set on the class only where wrapping produced a new object", "every selected member is set on the class, also an inherited one that is already decorated and came back unchanged: it is copied into the namespace of the subclass, where it shadows the override of a class later in the method resolution order (`class D(B, C)`: `D().f` is `A.f` copied into `B`, not `C.f`)", fi.loc(n), None, first_line(st))
+    # the constructor arm likewise
+    for n in cfg.nodes:
+        for call, cond, aw in calls_in(n):
+            if src_of(call.func) == "setattr" and len(call.args) == 3 and _wrapped_of(call.args[2], _binds([x for x in ast.walk(fi.node) if isinstance(x, (ast.Assign, ast.AnnAssign))])) is not None and not any(isinstance(lp, (ast.For, ast.While)) and any(x is call for x in ast.walk(lp)) for lp in ast.walk(fi.node)):
+                binds = _binds([x for x in ast.walk(fi.node) if isinstance(x, (ast.Assign, ast.AnnAssign))])
+                ifs = [i_ for i_ in ast.walk(fi.node) if isinstance(i_, ast.If) and not i_.orelse and _changed_guard(i_.test, binds) and any(x is call for x in ast.walk(i_))]
+                run.check(bool(ifs), rule_only, "%s:constructor" % fi.qual, "the constructor is set on the class only where wrapping produced a new object", "an inherited, already decorated constructor is copied into the namespace of the subclass", fi.loc(n), None, first_line(n.stmt))
 
 
 def meta_reapply(run, model, rule="C03.meta-reapply", rule_order="C16.meta-order"):
